@@ -10,7 +10,13 @@ Inductive case :=
    fetched for a cached head at once (all or nothing), which [model_step] (entry-wise merge of
    the replicator route) does not describe: only the specification is evaluated; [d_before] is
    what a restart yields without the hostile heads *)
-| CMutCached (d : delivery) (mismatch : bool).
+| CMutCached (d : delivery) (mismatch : bool)
+(* the same inside the snapshot file loaded by LoadFromSnapshot after a restart (see
+   AccessCorr: the snapshot route): specification only.  [mismatch] = the file states an
+   address for the target that its content does not hash to; the state after the load is
+   rendered by TRUE content addresses, so the target counts as present whether the log
+   files it under the claimed or under the true address *)
+| CMutSnapshot (d : delivery) (mismatch : bool).
 
 Definition bad_b (d : delivery) (mismatch : bool) (e : entry) : bool :=
   negb (entry_verify e) || negb (elog e =? d_lid d)%N || mismatch.
@@ -32,6 +38,12 @@ Definition check (c : case) : bool * bool :=
     (true,
      match target_entry d with
      | Some e => (if bad_b d mismatch e then negb (present d) || held_before d else true) && frame d
+     | None => true
+     end)
+  | CMutSnapshot d mismatch =>
+    (true,
+     match target_entry d with
+     | Some e => (if bad_b d mismatch e then negb (present d) || held_before d else true) && frame_load d
      | None => true
      end)
   end.
